@@ -729,10 +729,15 @@ class CDSInterval(AbstractFeatureInterval):
                 rel_start += frame.value
                 # remove trailing codon from previous block
                 shift = sum((coords[1] - coords[0] for coords in zip(cleaned_rel_starts, cleaned_rel_ends))) % 3
-                if shift > 0:
-                    # it may be possible for this shift to end up producing a 0bp block
-                    # this will be dropped in the list comprehension below that generates the cleaned_blocks
-                    cleaned_rel_ends[-1] = cleaned_rel_ends[-1] - shift
+                # the incomplete codon may span more than one of the previous blocks, so walk backwards
+                # it may be possible for this shift to end up producing a 0bp block
+                # this will be dropped in the list comprehension below that generates the cleaned_blocks
+                for i in range(len(cleaned_rel_ends) - 1, -1, -1):
+                    if shift == 0:
+                        break
+                    removed = min(shift, cleaned_rel_ends[i] - cleaned_rel_starts[i])
+                    cleaned_rel_ends[i] -= removed
+                    shift -= removed
                 # we are now inherently in frame
                 next_frame = CDSFrame.ZERO
             # it may be the case that the removal of the trailing codon from the previous block entirely
